@@ -156,7 +156,16 @@ impl ObjectReceiver {
 
         self.init_blocks_partitioning();
         self.init_object_writer(now);
+        if self.state != State::Receiving {
+            // The object writer could not be created or opened
+            return;
+        }
+
         self.push_from_cache(now);
+        if self.state != State::Receiving {
+            // The object has been completed (or is in error) with the pkts from the cache
+            return;
+        }
 
         if self.oti.is_none() {
             self.cache(pkt)
